@@ -635,6 +635,13 @@ pub mod implementations {
             bail!("expected 1 parameter (index into local operating stack), or * to print all");
         };
 
+        #[cfg(mscript_verif)]
+        if arg == "*" {
+            for item in ctx.get_local_operating_stack() {
+                crate::verif::print(item);
+            }
+        }
+
         if arg == "*" {
             let Some(first) = ctx.get_nth_op_item(0) else {
                 println!();
